@@ -19,6 +19,7 @@ type c09RunFacts struct {
 	RunSeq             []string // top-level statements of Run in source order
 	OuterWritesBefore  int      // keeper calls that are not reads, on an outer ctx (stateDB.Context()), before the native action
 	OuterWritesAfter   int      // … after it (or anywhere, when there is no native action)
+	OuterWritesOnError int      // round 4: … in the body of `if err = ExecuteNativeAction(…); err != nil { … }` (or of the `if err != nil` that tests the action's error): after the snapshot was put back
 	OuterReads         int
 	NativeStmts        int        // statements containing ExecuteNativeAction
 	ActionErrorDropped int        // the error ExecuteNativeAction returns is discarded, or reassigned / shadowed before it is tested or returned
@@ -432,7 +433,24 @@ func (c *ctxT) c09Run(contract, abiName string, run *ast.FuncDecl, decls []*ast.
 		if hasCall(st, "ExecuteNativeAction") {
 			// anything else in the same statement that touches an outer ctx comes first in evaluation order only if it is an
 			// argument; record it as outer before
+			// round 4: calls in the error branch of `if err = ExecuteNativeAction(..); err != nil { … }` run AFTER the action has
+			// failed and its snapshot was put back — they are recorded as such, not as writes ahead of the action
+			var errBody *ast.BlockStmt
+			if is, ok := st.(*ast.IfStmt); ok && is.Init != nil && hasCall(is.Init, "ExecuteNativeAction") && !hasCall(is.Body, "ExecuteNativeAction") {
+				errBody = is.Body
+			}
+			inErr := map[string]int{}
+			if errBody != nil {
+				for _, o := range outerCalls(errBody) {
+					inErr[o]++
+				}
+			}
 			for _, o := range outerCalls(st) {
+				if inErr[o] > 0 {
+					inErr[o]--
+					rf.RunSeq = append(rf.RunSeq, "outer-on-error:"+o)
+					continue
+				}
 				rf.RunSeq = append(rf.RunSeq, "outer:"+o)
 			}
 			rf.RunSeq = append(rf.RunSeq, "native")
@@ -449,7 +467,20 @@ func (c *ctxT) c09Run(contract, abiName string, run *ast.FuncDecl, decls []*ast.
 			continue
 		}
 		oc := outerCalls(st)
+		// round 4: `err = ExecuteNativeAction(..)` followed by `if err != nil { … }`: outer calls in that body are on the error path
+		onErr := false
+		if is, ok := st.(*ast.IfStmt); ok && closure != nil && is.Init == nil {
+			if be, ok := is.Cond.(*ast.BinaryExpr); ok && be.Op == token.NEQ && isNilIdent(be.Y) {
+				if id, ok := be.X.(*ast.Ident); ok && strings.HasPrefix(id.Name, "err") {
+					onErr = true
+				}
+			}
+		}
 		switch {
+		case len(oc) > 0 && onErr:
+			for _, o := range oc {
+				rf.RunSeq = append(rf.RunSeq, "outer-on-error:"+o)
+			}
 		case len(oc) > 0:
 			for _, o := range oc {
 				rf.RunSeq = append(rf.RunSeq, "outer:"+o)
@@ -605,6 +636,8 @@ func (c *ctxT) c09Run(contract, abiName string, run *ast.FuncDecl, decls []*ast.
 			} else {
 				rf.OuterWritesBefore++
 			}
+		case strings.HasPrefix(x, "outer-on-error:W:"):
+			rf.OuterWritesOnError++
 		}
 	}
 	if closure != nil {
@@ -668,6 +701,7 @@ structure RunFacts where
   runSeq : List String
   outerWritesBefore : Nat
   outerWritesAfter : Nat
+  outerWritesOnError : Nat
   outerReads : Nat
   nativeStmts : Nat
   actionErrorDropped : Nat
@@ -691,8 +725,8 @@ def runFacts : List RunFacts := [
 			}
 			ps = append(ps, "\n      -- "+strings.Join(p, " ")+"\n      "+leanList(ks))
 		}
-		fmt.Fprintf(&sb, "  { contract := %s, abiName := %s, runSeq := %s,\n    outerWritesBefore := %d, outerWritesAfter := %d, outerReads := %d, nativeStmts := %d, actionErrorDropped := %d, recovers := %d, defers := %d, ctxRebinds := %s, useGas := %d, panics := %d,\n    paths := %s, pathsTruncated := %s }",
-			leanStr(r.Contract), leanStr(r.AbiName), leanStrs(r.RunSeq), r.OuterWritesBefore, r.OuterWritesAfter, r.OuterReads, r.NativeStmts, r.ActionErrorDropped, r.Recovers, r.Defers, leanStrs(r.CtxRebinds), r.UseGas, r.Panics,
+		fmt.Fprintf(&sb, "  { contract := %s, abiName := %s, runSeq := %s,\n    outerWritesBefore := %d, outerWritesAfter := %d, outerWritesOnError := %d, outerReads := %d, nativeStmts := %d, actionErrorDropped := %d, recovers := %d, defers := %d, ctxRebinds := %s, useGas := %d, panics := %d,\n    paths := %s, pathsTruncated := %s }",
+			leanStr(r.Contract), leanStr(r.AbiName), leanStrs(r.RunSeq), r.OuterWritesBefore, r.OuterWritesAfter, r.OuterWritesOnError, r.OuterReads, r.NativeStmts, r.ActionErrorDropped, r.Recovers, r.Defers, leanStrs(r.CtxRebinds), r.UseGas, r.Panics,
 			leanList(ps), leanBool(r.PathsTruncated))
 		if i+1 < len(rfs) {
 			sb.WriteString(",")
